@@ -243,4 +243,13 @@ TagsHas(tags, name) == \E i \in 1..Len(tags) : tags[i][1] = name
 TagsGet(tags, name) == tags[CHOOSE i \in 1..Len(tags) : tags[i][1] = name][2]
 TagsRemove(tags, name) == SelectSeq(tags, LAMBDA t : t[1] # name)
 TagNames(tags) == [i \in 1..Len(tags) |-> tags[i][1]]
+
+\* names of a set sorted by code point order (BTreeMap / sort order), as a sequence
+RECURSIVE SortNames(_)
+SortNames(S) == IF S = {} THEN <<>> ELSE LET n == CHOOSE m \in S : \A o \in S : TextCmp(m, o) <= 0 IN <<n>> \o SortNames(S \ {n})
+\* Grid::make_from_dicts: the records as rows in order, one column per distinct tag name, sorted, no column meta, ver 3.0
+GridFromDicts(rows, meta) ==
+    LET names == UNION {{rows[i][j][1] : j \in 1..Len(rows[i])} : i \in 1..Len(rows)}
+        sorted == SortNames(names)
+    IN Grid(<<51, 46, 48>>, meta, [i \in 1..Len(sorted) |-> Col(sorted[i], <<>>)], rows)
 =============================================================================
